@@ -11,30 +11,73 @@ PID = "C19"
 PROPS_MODULE = "NumbersModel.Props.C19"
 THEOREMS = [f"NumbersModel.Props.C19.{t}" for t in (
     "add_no_ci_duplicate", "auto_name_fresh", "dup_refused", "lookup_by_name_exact", "index_agrees_with_iteration",
-    "index_outside_raises")] + [f"NumbersModel.Props.C19.Src.{t}" for t in (
+    "index_outside_raises",
+    # the document tree (Model/DocTree.lean): names and order after save / reopen from any file order, for every history
+    "valid_after_history", "order_after_reload", "order_after_reload_saved", "order_after_reload_history", "add_sheet_appends",
+    "order_after_reload_pinned", "isolation_table_setter", "isolation_sheet_rename")] + [f"NumbersModel.Props.C19.Src.{t}" for t in (
     # the lookup clauses over ItemsList.__getitem__ as py2lean regenerates it from containers.py on every run
     "src_index_agrees_with_iteration", "src_index_outside_raises", "src_lookup_by_name_exact", "src_other_key_raises")] + \
-    [f"NumbersModel.Translated.{t}" for t in ("getitem_int_eq_model", "getitem_str_eq_model", "getitem_other")]
+    [f"NumbersModel.Translated.{t}" for t in ("getitem_int_eq_model", "getitem_str_eq_model", "getitem_other")] + \
+    [f"NumbersModel.DocTree.{t}" for t in ("run_valid", "names_perm", "tableIds_perm", "serialise_perm", "load_objects")]
 TRANSLATED_GROUPS = ("Items",)
-PARTIAL = {"order_after_reload": "names and order after save/reopen are not a theorem (they go through protobuf and the object "
-                                 "store); exercised by the oracle on every saved history"}
+PARTIAL = {
+    "add_table_appends": "that _NumbersModel.add_table puts the new table last in table_ids(sheet) and leaves the other sheets' lists alone is "
+                         "not a Lean theorem (add_sheet_appends is; for add_table the invariant Valid is proved kept, incl. that the new "
+                         "info is listed by its sheet); the in-memory order after every add is compared with the model's table_ids on every "
+                         "history (driver op Q) and checked by the oracle add-disturbs-order",
+    "isolation_labels": "isolation is proved for names and order (isolation_table_setter, isolation_sheet_rename: a table's or sheet's setter "
+                        "leaves the sheets, every sheet's table list and order, and every other name unchanged); that the other tables' caption / "
+                        "visibility / header counts / position are unchanged, and isolation between two Document objects, are checked by the "
+                        "oracle (edit-leaks-to-sibling, edit-leaks-to-other-document) and the correspondence, not proved",
+    "files_match": "order_after_reload quantifies over every package holding exactly the store's objects; that Document.save writes such a "
+                   "package (hypothesis FilesMatch of order_after_reload_saved) is compared on every saved file, member by member and "
+                   "archive by archive, with the model's serialise - not proved to be kept by create_object_from_dict when a new member's "
+                   "formatted name collides with an existing one",
+}
 RULE = ("seeded histories of add_sheet/add_table (named from a pool with case variants, generated-looking names, empty, "
         "non-ASCII incl. multi-char lowercasings; unnamed) and renames over new and loaded documents, each followed by lookups "
         "by every index in [-2n,2n], by name and `in` tests; one protocol line per collection (sheets of a document, tables of a "
-        "sheet). Non-trivial = a collection history containing at least one add; distinct by its full operation line")
+        "sheet). Document-tree stream: seeded histories over new documents and 5 fixtures of add_sheet / add_table (explicit or default "
+        "position, 2..300 rows, header counts) / sheet and table renames / name and caption visibility / caption text / header counts / "
+        "views / save + layout rewrite (id, members reversed, archives of every member reversed, both, archives rotated) + reopen; one "
+        "protocol line per history carrying the whole live store (every identifier, every member). Non-trivial = a collection history "
+        "containing at least one add, a document-tree history with an add or a reload; distinct by its full operation line")
 ASSUMPTIONS = ["str.lower() is computed by the interpreter and passed to the model as data; ('<Prefix> <n>').lower() == '<prefix> <n>'",
-               "sheet/table creation inside the model layer (protobuf objects) is not modelled; only the collection logic is"]
+               "document tree: protobuf messages are abstracted to the fields the names / order / labels code reads (DocumentArchive.sheets, "
+               "SheetArchive.name / drawable_infos, TableInfoArchive parent / tableModel / caption / caption_hidden / position, TableModelArchive "
+               "name / name visibility / header counts, caption info -> storage text); protobuf, snappy and zipfile write and read them "
+               "faithfully (exercised on every saved package through an independent reader, not proved)",
+               "the position a new table gets (create_drawable: table height + binary32 arithmetic) is read back from the real object and passed "
+               "to the model as data; positions are opaque binary32 bit patterns",
+               "Document.save creates, per table, one merge map and one tile per 256 rows and nothing else in these histories (no style or "
+               "format changes); the harness passes that list, computed from the API's num_rows, as a createOthers op",
+               "zip directory entries ('Index/') that the library keeps as empty blobs are left out of the model's member list"]
 MANIFEST = {
-    "text": "Full in memory: add_no_ci_duplicate, auto_name_fresh (fresh, smallest free number, the search loop terminates — "
+    "text": "Full in memory: add_no_ci_duplicate, auto_name_fresh (fresh, smallest free number, the search loop terminates - "
             "pigeonhole), dup_refused (IndexError, collection unchanged), lookup_by_name_exact, index_agrees_with_iteration + "
             "index_outside_raises (all integer indices) are Lean theorems about a model of ItemsList and the name choice in "
-            "add_sheet/_add_table, for every collection and every case-folding function. Names and order after save/reopen are "
-            "checked by the oracle only (partial). ItemsList.__getitem__ is additionally TRANSLATED from containers.py on "
-            "every run (harness/py2lean.py -> Gen/TrItems.lean), proved equal to the model's getByIndex/getByName "
-            "(Lemmas/TrItems.lean) and the lookup clauses are restated over the translated definition "
-            "(Props.C19.Src.src_*); the translated definition is run against the real method exhaustively on small collections.",
-    "note": "str.lower is supplied by the interpreter as data; item creation in model.py is not modelled.",
-    "technique": "Lean 4 proof (invariant preservation, pigeonhole for termination; __getitem__ proved equal to its translation from the Python source) + differential correspondence on edit histories",
+            "add_sheet/_add_table, for every collection and every case-folding function. ItemsList.__getitem__ is additionally TRANSLATED "
+            "from containers.py on every run (harness/py2lean.py -> Gen/TrItems.lean), proved equal to the model's getByIndex/getByName "
+            "(Lemmas/TrItems.lean) and the lookup clauses are restated over the translated definition (Props.C19.Src.src_*). "
+            "Names and order after save/reopen are now theorems about Model/DocTree.lean, a model of the object store (insertion-ordered "
+            "map, members with their archives in file order, create_object_from_dict), sheet_ids / sheet_name / table_ids (as repaired: "
+            "membership by parent over the store's iteration order, order by a stable sort on the position in the sheet's drawable list) / "
+            "table_info_id / table_name / caption and visibility accessors / header counts, _NumbersModel.add_sheet and add_table (every "
+            "object created, in code order), serialise (update_object_file_store + members in order) and load (store rebuilt in FILE "
+            "order): order_after_reload (for EVERY package that holds exactly the store's objects - archives and members in any order - the "
+            "reopened document shows the same sheets in the same order and per sheet the same tables in the same order), "
+            "order_after_reload_saved (the saved package and every rearrangement of it), valid_after_history / order_after_reload_history "
+            "(the side conditions - distinct identifiers, every table info listed by its parent sheet, table models not shared - are kept "
+            "by every history of add_sheet / add_table / renames / caption, visibility and header-count setters / creation of other objects), "
+            "add_sheet_appends, isolation_table_setter / isolation_sheet_rename. The pinned table_ids (store order) is kept as "
+            "tableIdsPinned with a counter-example by decide and the exact condition under which it keeps the order "
+            "(order_after_reload_pinned).",
+    "note": "str.lower is supplied by the interpreter as data. Defect found and repaired (fixes/C06-table-order-from-drawable-list.patch): "
+            "table order inside a sheet followed the order of the archives inside Index/CalculationEngine.iwa. Known finding "
+            "edit-raises-on-reordered-container (add_sheet on a container that lists Metadata/DocumentIdentifier before Index/Document.iwa).",
+    "technique": "Lean 4 proof (invariant preservation over operation histories, permutation invariance of a stable sort with injective keys, "
+                 "pigeonhole for termination; __getitem__ proved equal to its translation from the Python source) + differential correspondence "
+                 "on edit histories incl. the saved package read independently and reopened from rewritten layouts",
 }
 
 POOL = ["Sheet 1", "sheet 1", "SHEET 2", "Sheet 2", "Table 1", "table 1", "TABLE 2", "Table 3", "table 3", "Sheet 10", "sheet 02",
@@ -342,7 +385,7 @@ def _dt_target_diff(before, after):
     return out
 
 
-def doctree_history(ctx: Ctx, hid: int, src, nops: int):
+def doctree_history(ctx: Ctx, hid: int, src, nops: int, foreign: bool = False):
     import doctree
     import layouts
     from numbers_parser import Document
@@ -381,10 +424,10 @@ def doctree_history(ctx: Ctx, hid: int, src, nops: int):
                           {**where, "log": list(log)})
 
     try:
-        for _ in range(nops):
+        for step_no in range(nops + (1 if foreign else 0)):
             if dead:
                 break
-            r = rng.random()
+            r = rng.random() if step_no < nops else 0.99
             before = doctree.plain_view(doc)
             ns = len(doc.sheets)
             if r < 0.12 and ns < 5:
@@ -404,8 +447,11 @@ def doctree_history(ctx: Ctx, hid: int, src, nops: int):
                     ops.append(f"AS {enc_text(nm)}")
                     outs.append("err " + exc_name(e))
                     dead = True
-                    ctx.violation("edit-raises-on-reordered-container" if isinstance(e, AttributeError) else "add-wrong-exception",
-                                  f"add_sheet({nm!r}) raised {exc_name(e)}: {e}", {**where, "log": list(log)})
+                    if isinstance(e, AttributeError) and foreign:
+                        ctx.count("add_sheet raised AttributeError on a member-reversed container (C19 known finding): history ended", 1)
+                    else:
+                        ctx.violation("edit-raises-on-reordered-container" if isinstance(e, AttributeError) else "add-wrong-exception",
+                                      f"add_sheet({nm!r}) raised {exc_name(e)}: {e}", {**where, "log": list(log)})
             elif r < 0.34:
                 si = rng.randrange(ns)
                 s = doc.sheets[si]
@@ -493,7 +539,7 @@ def doctree_history(ctx: Ctx, hid: int, src, nops: int):
                 ops.append("Q")
                 outs.append(doctree.api_view(doc))
             else:
-                mode = rng.choice(doctree.MODES)
+                mode = rng.choice(doctree.MODES if step_no < nops else ("reva", "rota", "both"))
                 log.append(["save_reopen", mode])
                 # what Document.save creates: per table (sheet by sheet) a merge map, then one tile per 256 rows
                 created = []
@@ -510,9 +556,11 @@ def doctree_history(ctx: Ctx, hid: int, src, nops: int):
                 doc = Document(p2)
                 outs.append(doctree.api_view(doc))
                 after = doctree.plain_view(doc)
+                if not facts0 and doctree.store_facts(doc):
+                    ctx.violation("store-side-condition-lost", f"after reopening: {doctree.store_facts(doc)[:3]}", {**where, "log": list(log)})
                 ctx.count(f"save / rewrite ({mode}) / reopen: names, order and labels", 1)
                 if [(a[0], [t[0] for t in a[1]]) for a in after] != [(a[0], [t[0] for t in a[1]]) for a in before]:
-                    ctx.violation("names-or-order-change-on-reload" if mode == "id" else "table-order-depends-on-file-order",
+                    ctx.violation("names-or-order-change-on-reload" if mode == "id" else "names-or-order-depend-on-file-order",
                                   f"layout {mode}: before save {[(a[0], [t[0] for t in a[1]]) for a in before]!r}, after reopen "
                                   f"{[(a[0], [t[0] for t in a[1]]) for a in after]!r}", {**where, "log": list(log)})
                 elif after != before:
@@ -537,23 +585,26 @@ def doctree_history(ctx: Ctx, hid: int, src, nops: int):
 def _dt_worker(task):
     import warnings
     warnings.simplefilter("ignore")
-    seed, h, src = task
+    seed, h, src, foreign = task
     sub = Ctx(PID, "quick", seed * 1_000_003 + 77_777 + h)
     sub.seed = seed
-    line, out, log = doctree_history(sub, h, src, sub.rng.randrange(4, 14))
+    line, out, log = doctree_history(sub, h, src, sub.rng.randrange(4, 14), foreign)
     if h < 2:
         sub.sample({"stream": "doctree", "source": src, "log": log[:10]})
     return common.sub_result(sub, (line, out, " AT " in line or " AS " in line or " LD " in line))
 
 
-def doctree_stream(ctx: Ctx):
-    n_hist = 160 if ctx.quick else 2400
+def doctree_stream(ctx: Ctx, n_hist: int | None = None, foreign: bool = False):
+    """foreign=True: called from another property's check (C16 labels, C06 table order): a smaller volume, every history ends
+    with a save + non-trivial layout rewrite + reopen, and C19's own known finding is not reported there."""
+    if n_hist is None:
+        n_hist = 96 if ctx.quick else 2400
     tasks = []
     for h in range(n_hist):
         src = DT_SOURCES[h % len(DT_SOURCES)]
         if src and not (REPO / "tests/data" / src).exists():
             src = None
-        tasks.append((ctx.seed, h, src))
+        tasks.append((ctx.seed, h, src, foreign))
     req, out, nt = [], [], {}
     for line, o, nontriv in common.run_parallel(ctx, _dt_worker, tasks):
         req.append(line)
